@@ -22,38 +22,38 @@ Q = {"quick": {"plain": 22, "san": 8}, "thorough": {"plain": 600, "san": 300}}
 
 META = {
  "C01": _m("exploration",
-    "one evaluation = one simulated run: 1-3 clients, a drawn heap placement x reuse x noise policy, a generated pair (A,B) of explicit tree automata (<= 7 states, <= 5 ranked symbols, rank <= 2, rarely 3; B often derived from A) loaded by text or rule by rule, the inclusion selections issued in a drawn order (directly and through the CLI protocol of cli/operations.hh) while other clients load, mutate, copy and destroy automata and churn the heap. Oracle: exact bottom-up subset-construction inclusion; all 8 selections agree; a selection outside the eight may be refused with any exception or answer, but an answer must be the right verdict. A case is non-trivial and distinct by the hash of (A, B, selection, call path) once the reference produced a verdict.",
+    "one evaluation = one simulated run: 1-3 clients, a drawn heap placement x reuse x noise policy, a generated pair (A,B) of explicit tree automata (<= 7 states, <= 5 ranked symbols, rank <= 2, rarely 3; B often derived from A) loaded by text or rule by rule, the inclusion selections issued in a drawn order (directly and through the CLI protocol of cli/operations.hh) while other clients load, mutate, copy and destroy automata and churn the heap. Oracle: exact bottom-up subset-construction inclusion; all 8 selections agree; a selection outside the eight may be refused with any exception or answer, but an answer must be the right verdict. A case is non-trivial and distinct by the hash of (A, B, selection, call path) once the reference produced a verdict. Also: monadic pairs (a word-automaton inclusion pair embedded as tree automata), a drawn bijection on the symbol names (registration order), dense pairs (6-12 rules per state), operands that are RESULTS of operations (trimming, union, intersection, renumbering, reduction, witness), a copy that still shares the rule storage and differs in final states only, and an operand OBJECT that got another value by assignment before the question is asked again (et_twist).",
     ["downward selections are exponential by construction: exhausting their tick budget (3*10^6 allocator events) is recorded as inconclusive, not as a hang; the upward selections have a 3*10^7 budget and exhausting it is a violation",
      "sim=yes selections are called only through the CLI's own sequence (sanitise, UnionDisjointStates, ComputeSimulation(numStates), CheckInclusion)"],
     {"quick": {"plain": 35, "san": 10}, "thorough": {"plain": 900, "san": 300}}),
  "C02": _m("exploration",
-    "one run: generated operands with overlapping or sparse state numbers, empty operands, useless states; Union (no / both / one map), UnionDisjointStates (client makes the state sets disjoint first), Intersection and IntersectionBU with absent, empty and pre-filled (left by an earlier identical call) maps; operands possibly shared copy-on-write with other handles; afterwards operands and results are mutated / destroyed. Oracle: exact language equality with the model union / product; the reported maps are judged semantically (every result state is named; what it accepts as a root is what the operand state / pair it stands for accepts; no two operand states / pairs share one result state unless the call merges them); maps left by another call (same or other operands) must not change the result's language; operands unchanged rule for rule (the property says so); every live handle equals its model at the end. Distinct non-trivial case = hash of (A, B, operation).",
+    "one run: generated operands with overlapping or sparse state numbers, empty operands, useless states; Union (no / both / one map), UnionDisjointStates (client makes the state sets disjoint first), Intersection and IntersectionBU with absent, empty and pre-filled (left by an earlier identical call) maps; operands possibly shared copy-on-write with other handles; afterwards operands and results are mutated / destroyed. Oracle: exact language equality with the model union / product; the reported maps are judged semantically (every result state is named; what it accepts as a root is what the operand state / pair it stands for accepts; no two operand states / pairs share one result state unless the call merges them); maps left by another call (same or other operands) must not change the result's language; operands unchanged rule for rule (the property says so); every live handle equals its model at the end. Distinct non-trivial case = hash of (A, B, operation). Also: 'siblings' (two copies of one automaton extended separately, then combined) and operand objects with a history (et_twist).",
     ["the language claim itself is a function of the inputs; simulation contributes the environment quantifier (layout decides product numbering, sharing, history)"], Q),
  "C03": _m("exploration",
-    "one run: generated automata (1-6 states mostly, up to 40; language equality exact within a work bound, else by sampled membership in both directions) with the corner cases the property names (final states without rules, unreachable-but-rule-owning states, unproductive states, no final state); RemoveUnreachableStates / RemoveUselessStates (with and without map) / IsLangEmpty; results share storage with the operand, then either is mutated; the questions are then asked again of handles with a history (assigned over, moved, copied, modified in place). Oracle: language equality, reachability / usefulness post-conditions computed by the model on the read-back result, emptiness by the model. Distinct non-trivial case = hash of (A, operation).",
+    "one run: generated automata (1-6 states mostly, up to 40; language equality exact within a work bound, else by sampled membership in both directions) with the corner cases the property names (final states without rules, unreachable-but-rule-owning states, unproductive states, no final state); RemoveUnreachableStates / RemoveUselessStates (with and without map) / IsLangEmpty; results share storage with the operand, then either is mutated; the questions are then asked again of handles with a history (assigned over, moved, copied, modified in place). Oracle: language equality, reachability / usefulness post-conditions computed by the model on the read-back result, emptiness by the model. Distinct non-trivial case = hash of (A, operation). Also: the client keeps one translation map and hands it to some of its trimming calls one after the other (a pipeline that reuses one map).",
     [], Q),
  "C04": _m("exploration",
-    "one run: generated automata (1-7 states, sometimes 17-40 so that the relation outgrows its initial 16x16 matrix), numbered densely either in visiting order (as the CLI does) or by a drawn bijection; downward simulation on the automaton, upward simulation on its useless-free part. Oracle: naive greatest fix-point from the definitions in the property, compared pair by pair through get(q,r). Distinct case = hash of the dense automaton and direction; counted separately when the relation is larger than the identity.",
+    "one run: generated automata (1-7 states, sometimes 17-40 so that the relation outgrows its initial 16x16 matrix), numbered densely either in visiting order (as the CLI does) or by a drawn bijection; downward simulation on the automaton, upward simulation on its useless-free part. Oracle: naive greatest fix-point from the definitions in the property, compared pair by pair through get(q,r). Distinct case = hash of the dense automaton and direction; counted separately when the relation is larger than the identity. Also: the handle's own object (when its states already are 0..n-1) instead of a re-indexed copy, asked again after a near relative was assigned over it; the returned relation handed on (move-constructed into another object) while the variable is reused for the relation of a renumbered copy.",
     ["precondition from the property: the occurring states are exactly 0..n-1 and n is passed"], Q),
  "C05": _m("exploration",
-    "one run: generated automata with sparse or dense numbers, useless states and states duplicated to create simulation-equivalent final and non-final states; Reduce. Oracle: language equality (exact within a work bound, else sampled membership in both directions); result has no more states / rules than the input; every result state stands for a state of the input in the semantic sense (it accepts, as a root, exactly what some state of the input accepts there; checked for inputs of up to 10 states); operand keeps its language.",
+    "one run: generated automata with sparse or dense numbers, useless states and states duplicated to create simulation-equivalent final and non-final states; Reduce. Oracle: language equality (exact within a work bound, else sampled membership in both directions); result has no more states / rules than the input; every result state stands for a state of the input in the semantic sense (it accepts, as a root, exactly what some state of the input accepts there; checked for inputs of up to 10 states); operand keeps its language. Also: the same object reduced again after a near relative (same states, a rule or two tweaked) was assigned or moved over it or it was modified in place.",
     ["'the image of at least one state of A' is read semantically (the result state and the state it stands for accept the same trees as roots), so that neither the numbering of the result nor the equivalence that is quotiented is prescribed; a result state left without rules is therefore flagged only if the input has no state with an empty language"], Q),
  "C06": _m("exploration",
-    "one run: automata over a process-wide or a private on-the-fly alphabet shared between clients; other symbols are registered between load and complement; alphabets with only nullary symbols, universal and empty languages. Oracle: S = dictionary content at the call; no tree over S is accepted by both (empty product) and every tree over S is accepted by one (universal automaton included in the tagged union), both by the exact model; no rule of the complement uses a symbol outside S. The complement is read by iteration and its symbol numbers are interpreted through the operand's alphabet.",
+    "one run: automata over a process-wide or a private on-the-fly alphabet shared between clients; other symbols are registered between load and complement; alphabets with only nullary symbols, universal and empty languages. Oracle: S = dictionary content at the call; no tree over S is accepted by both (empty product) and every tree over S is accepted by one (universal automaton included in the tagged union), both by the exact model; no rule of the complement uses a symbol outside S. The complement is read by iteration and its symbol numbers are interpreted through the operand's alphabet. Also: short-lived private alphabets (et_complement_local: alphabet, automaton, further registrations, complement and result live inside one step; two to five such steps in a row with freshly drawn pools, so that an alphabet is born at the address of a dead one), and operand objects with a history (et_twist).",
     ["the construction enumerates choice functions: exhausting 3*10^6 allocator events is inconclusive"], Q),
  "C07": _m("exploration",
-    "one run: the same generated pair loaded into bdd-bu and bdd-td (16-bit symbols), a third of the pairs shaped so that each child position of a binary rule carries several macro-states; implemented selections (bu: up, down-rec+sim; td: down-rec, down-rec-opt, each with / without simulation, the preorder obtained by the library's own bottom-up sequence) and unimplemented ones, directly and through the CLI protocol, with churn of diagrams in between. Oracle: exact model inclusion; a selection that is not among the implemented ones may throw any exception or answer correctly, never answer wrongly (the statement's wording).",
+    "one run: the same generated pair loaded into bdd-bu and bdd-td (16-bit symbols), a third of the pairs shaped so that each child position of a binary rule carries several macro-states; implemented selections (bu: up, down-rec+sim; td: down-rec, down-rec-opt, each with / without simulation, the preorder obtained by the library's own bottom-up sequence) and unimplemented ones, directly and through the CLI protocol, with churn of diagrams in between. Oracle: exact model inclusion; a selection that is not among the implemented ones may throw any exception or answer correctly, never answer wrongly (the statement's wording). Also: monadic pairs, a drawn bijection on the symbol names (= BDD codes), dense pairs, operands that are results (union, intersection, trimming, conversion), operand objects with a history (bdd_twist), and the SYMBOLIC mode (bdd_sym_episode): the pair's symbols replaced by patterns over 0/1/X, loaded with LoadFromString(..., \"symbolic\"), all implemented selections judged against the expansion of the patterns (one rule per matching code).",
     ["bdd-bu up+sim is not exercised as a verdict: the library cannot produce the upward preorder it needs (it reports NotImplementedException through the CLI path, which is checked)"],
     {"quick": {"plain": 45, "san": 10}, "thorough": {"plain": 900, "san": 300}}),
  "C08": _m("exploration",
-    "one run: histories of load / copy / assign / move / destroy and Union / UnionDisjointStates / Intersection / RemoveUnreachableStates / RemoveUselessStates / GetTopDownAut / ReindexStates over bdd-bu and bdd-td automata that share transition tables; a third of the clients start with a 'diamond' (two results derived from one base by Union / UnionDisjointStates or by copy + SetStateFinal, then combined with each other and the base). Oracle after every step: every live handle is dumped, read by the independent Timbuk reader and must denote its model language (exact); results equal model union / product / trimmed language; no useless state after RemoveUselessStates.",
+    "one run: histories of load / copy / assign / move / destroy and Union / UnionDisjointStates / Intersection / RemoveUnreachableStates / RemoveUselessStates / GetTopDownAut / ReindexStates over bdd-bu and bdd-td automata that share transition tables; a third of the clients start with a 'diamond' (two results derived from one base by Union / UnionDisjointStates or by copy + SetStateFinal, then combined with each other and the base). Oracle after every step: every live handle is dumped, read by the independent Timbuk reader and must denote its model language (exact); results equal model union / product / trimmed language; no useless state after RemoveUselessStates. Also: 'accumulator' histories (acc = copy of A; u = acc op B; acc = u; again), bdd_twist, and the SYMBOLIC mode (bdd_sym_episode): patterns with don't-cares; symbolic load / dump, dump-load-dump, Union (also with a copy), Intersection and both trimmings judged against the expanded model.",
     ["state numbers of all live BDD automata of one encoding are treated as one name space when the client establishes the 'disjoint state sets' precondition of UnionDisjointStates (automata sharing a table see each other's rules; see DESIGN.md section 6)"], Q),
  "C09": _m("exploration",
-    "one run: generated NFA pairs (<= 7 states; several start states, start-and-final states, dead / unreachable states, symbols in one operand only), loaded after other clients registered unrelated symbols; antichains, congruence depth-first and breadth-first in a drawn order, directly with arbitrary overlapping numbering and through the CLI protocol; the antichain and the depth-first congruence algorithm also with a simulation preorder handed over through InclParam (the client sanitises the operands as cli/operations.hh does and supplies the reference model's forward simulation on their union: the greatest one, the identity, its restriction to pairs inside one operand, its restriction to smaller-to-bigger pairs). Oracle: exact subset-construction inclusion; all selections agree; a step that exceeds 2*10^7 allocator events is a hang.",
+    "one run: generated NFA pairs (<= 7 states; several start states, start-and-final states, dead / unreachable states, symbols in one operand only), loaded after other clients registered unrelated symbols; antichains, congruence depth-first and breadth-first in a drawn order, directly with arbitrary overlapping numbering and through the CLI protocol; the antichain and the depth-first congruence algorithm also with a simulation preorder handed over through InclParam (the client sanitises the operands as cli/operations.hh does and supplies the reference model's forward simulation on their union: the greatest one, the identity, its restriction to pairs inside one operand, its restriction to smaller-to-bigger pairs). Oracle: exact subset-construction inclusion; all selections agree; a step that exceeds 2*10^7 allocator events is a hang. Also: operands that are RESULTS of operations (mirror images, unions, trimmed automata, mirror images of those) and operand objects with a history (fa_twist).",
     ["the selections with a simulation relation are read as part of 'the antichain algorithm' / 'the congruence algorithm' and of 'all implemented algorithm selections'; the library cannot compute a simulation for word automata (ExplicitFiniteAut::ComputeSimulation is not implemented, so `vata -r expl_fa -o sim=yes` is not exercised), the relation therefore comes from the reference model and is always a simulation preorder that respects final states",
      "the equivalence-checking flag of InclParam (CONGR_*_EQUIV_*) answers another question than inclusion and is not exercised"], Q),
  "C10": _m("exploration",
-    "one run: generated NFAs (empty word accepted, several start states, product states with one initial component); Union, UnionDisjointStates, Intersection, Reverse, RemoveUnreachableStates, RemoveUselessStates, GetCandidateTree; results read back through DumpToString and the independent reader. Oracle: exact NFA language equality / inclusion by the model; operands keep their language.",
+    "one run: generated NFAs (empty word accepted, several start states, product states with one initial component); Union, UnionDisjointStates, Intersection, Reverse, RemoveUnreachableStates, RemoveUselessStates, GetCandidateTree; results read back through DumpToString and the independent reader. Oracle: exact NFA language equality / inclusion by the model; operands keep their language. Also: chains in which the result of one operation (mirror images first) is an operand of the next, and operand objects with a history (fa_twist).",
     ["start symbols are not part of the language (C09's acceptance definition)"], Q),
  "C11": _m("exploration",
     "one run: 1-4 clients with interleaved histories of construct / load / copy / partial copy / assign / self-assign / move / AddTransition / CopyTransitionsFrom / SetStateFinal / SetStatesFinal / EraseFinalStates / Clear / SetStateStart / SetExistingStateStart / destroy / give-a-copy-to-another-client and library operations over explicit tree and finite automata; client aborts. Oracle: after every mutating step every live handle of every client is read back (iteration resp. dump) and equals its private model; a deciding operation repeated later on equal operands returns the same result. Non-trivial distinct case = hash of a repeated decision; distinct interleavings are counted by allocation fingerprint.",
@@ -68,13 +68,13 @@ META = {
      "the arbitrary-byte-string clause is sampled, not enumerated"],
     {"quick": {"plain": 25, "san": 10}, "thorough": {"plain": 600, "san": 300}}),
  "C14": _m("exploration",
-    "one run: ReindexStates through a weak translator (counter from anywhere), through injective-sparse / dense-bijective / identity / merging functors with and without final states, into a fresh automaton or into a destination that already holds rules and shares clusters with another handle; CollapseStates with total maps; TranslateSymbols with permuting / merging / fresh-name maps. Oracle: the result is exactly (old destination) union image, rule for rule; injective => same counts and language; merging => super-language; translator contents consistent; sharing peers keep their language.",
+    "one run: ReindexStates through a weak translator (counter from anywhere), through injective-sparse / dense-bijective / identity / merging functors with and without final states, into a fresh automaton or into a destination that already holds rules and shares clusters with another handle; CollapseStates with total maps; TranslateSymbols with permuting / merging / fresh-name maps. Oracle: the result is exactly (old destination) union image, rule for rule; injective => same counts and language; merging => super-language; translator contents consistent; sharing peers keep their language. Also: operand objects with a history (et_twist).",
     [], Q),
  "C15": _m("exploration",
-    "one run: generated automata incl. leaf-only, deep-only and unproductive-final corner cases; GetCandidateTree. Oracle: exact inclusion witness <= A; witness non-empty iff A non-empty; operand keeps its language.",
+    "one run: generated automata incl. leaf-only, deep-only and unproductive-final corner cases; GetCandidateTree. Oracle: exact inclusion witness <= A; witness non-empty iff A non-empty; operand keeps its language. Also: several witness questions per simulated process, the same object asked again after it got another value (et_twist).",
     [], Q),
  "C17": _m("exploration",
-    "one run: 1-3 clients hold MTBDDs with int and ordered-set leaves over <= 6 variables; construct with don't-cares, constant, copy, assign, self-assign, destroy, apply 1/2/3 with eight leaf functions (constant, non-commutative, projections), Project (max/min), Rename (monotone), ExtendWith, GetMtbddForPrefix, GetPaths. Oracle after every step, for every live diagram of every client: GetValue on all 256 total assignments equals the truth-table model; a == b exactly when the tables are equal; GetPaths partitions the assignments with the right values.",
+    "one run: 1-3 clients hold MTBDDs with int and ordered-set leaves over <= 6 variables; construct with don't-cares, constant, copy, assign, self-assign, destroy, apply 1/2/3 with eight leaf functions (constant, non-commutative, projections), Project (max/min), Rename (monotone), ExtendWith, GetMtbddForPrefix, GetPaths. Oracle after every step, for every live diagram of every client: GetValue on all 256 total assignments equals the truth-table model; a == b exactly when the tables are equal; GetPaths partitions the assignments with the right values. Also: 'default twins' (one function built twice with value and default value exchanged, or a constant built both ways; assignment between the two handles; prefix extension and apply afterwards).",
     ["Project is exercised with idempotent, commutative, associative leaf functions only (its result is otherwise structure-dependent by design)"], Q),
  "C18": _m("exploration",
     "one run: 1-4 clients, histories restricted (in 4 of 5 runs) to the operations the property lists: construct / copy / assign incl. self-assign / apply / destroy, with client aborts, LIFO address reuse, scribble-on-free and poisoning. Oracle after every step: every live diagram still returns, for all 256 assignments, what it returned when it was created (whether a fresh result is the right function is C17's question); the two unique tables (read through the friend-specialisation seam) hold at least the canonical nodes of the live functions (no premature release; how soon unreferenced nodes go away is left open); after the last handle is gone they are back at their baseline. A fifth of the runs add the other operations, half of those re-project one operand through one pooled functor after the first projection died.",
